@@ -205,6 +205,21 @@ func c04bTriggers(evs []c04Event, css2 bool) map[string]string {
 	trig := map[string]string{}
 	for _, e := range evs {
 		switch e.gt {
+		case pcss.QualifiedRuleGrammar, pcss.BeginRulesetGrammar:
+			inAttr := false
+			for i, t := range e.vals {
+				if t.tt == pcss.LeftBracketToken {
+					inAttr = true
+				} else if t.tt == pcss.RightBracketToken {
+					inAttr = false
+				} else if inAttr && t.tt == pcss.StringToken && len(t.data) > 2 && c04IsIdent(t.data[1:len(t.data)-1]) && i > 0 {
+					p := e.vals[i-1]
+					matcher := p.tt == pcss.DelimToken && string(p.data) == "=" || p.tt == pcss.IncludeMatchToken || p.tt == pcss.DashMatchToken || p.tt == pcss.PrefixMatchToken || p.tt == pcss.SuffixMatchToken || p.tt == pcss.SubstringMatchToken
+					if !matcher {
+						trig["selector"] = "K-C04B-15" // attrStringNotValue
+					}
+				}
+			}
 		case pcss.DeclarationGrammar:
 			c04bDeclTriggers(string(e.data), e.vals, css2, trig)
 		case pcss.BeginAtRuleGrammar:
